@@ -2,6 +2,14 @@
 import re
 
 
+# scenario families of go/cmd/client (name prefixes), for locating a crash
+FAMILIES = {
+    "c09": ["cfg/", "cfgerr/", "vsub/", "cbapi/", "ka/", "rl/", "mwd/", "tcp/", "wait/", "basic/", "regress/", "observe/", "gated/", "connack/",
+            "resume/", "fault/", "conc/", "acks/", "ledger/", "pinger/"],
+    "c10": ["cfg/", "rl/", "basic/", "known/", "seq/", "own/", "gate/", "cberr/", "fault/"],
+}
+
+
 def run_cl(ck, cmd, clauses, known_scenarios):
     """cmd: harness/model sub-command; clauses: propfail clause -> property clause name;
     known_scenarios: scenario name -> (clause, regex) that must be reproduced on every run."""
@@ -9,18 +17,41 @@ def run_cl(ck, cmd, clauses, known_scenarios):
     if not ck.build_harness("client"):
         return
     extra = ["-replay", ck.replay] if ck.replay else []
-    path, _ = ck.harness(cmd, extra=extra)
+    path, hout = ck.harness(cmd, extra=extra)
+    crashed = [b for b in ck.broken if b.startswith("harness %s crashed" % cmd)]
+    if crashed and not ck.replay:
+        # the client panicked the process (a goroutine of the client cannot be recovered by the harness): nothing was
+        # written.  Find a scenario family that does it by itself and report it with the panic line.
+        import os
+        panic = next((l for l in hout if l.startswith("panic:")), "the harness process died")
+        for fam in FAMILIES.get(cmd, []):
+            rp = os.path.join(ck.work, "family.txt")
+            open(rp, "w").write("family=%s\n" % fam)
+            _, out2 = ck.harness(cmd, out_name="family.txt.out", extra=["-replay", rp])
+            if any(l.startswith("panic:") or l.startswith("goroutine ") for l in out2):
+                trace = [l for l in out2 if "gomqtt" in l or l.startswith("panic:")][:12]
+                ck.broken = [b for b in ck.broken if not b.startswith("harness %s crashed" % cmd)]
+                ck.fail_input("no_panic", "the client panics the process in scenario family %s*: %s" % (fam, panic),
+                              ["family=%s" % fam, panic] + trace)
+                return
+        return
     lines = ck.model("client", cmd, path)
     ex = open(path).read().splitlines()
     scn = {}       # n -> all lines of the scenario
     name = {}
     for l in ex:
         f = l.split(" ", 3)
-        if f[0] in ("scn", "ev", "mark", "end") and len(f) >= 2:
+        if f[0] in ("scn", "ev", "mark", "end", "obsev", "obsmark") and len(f) >= 2:
             scn.setdefault(f[1], []).append(l)
             if f[0] == "scn":
                 name[f[1]] = f[2]
     witnessed = False
+    # findings the option sweep records on this tree (recorded, not failed)
+    findings = sorted(set(re.sub(r" scn=\d+$", "", l.split(" ok ", 1)[1]) for l in ex if l.startswith("direct observe ok ") and ":OBSERVED:" in l))
+    if findings:
+        ck.extra["findings_observed"] = findings
+        for f in findings:
+            print("NOTE: finding observed (recorded, not failed): " + f[:400])
     for l in ex:
         if l.startswith("direct ") and " FAIL " in l:
             m = re.search(r"scn=(\d+)", l)
